@@ -8,6 +8,9 @@ loops; members are called on copies; no random draw lies on any path to the
 first-check success return, and and_'s randomising store is guarded by its cycle
 test; the six function couplers equal their documented composition (reference
 summaries); penalty combinators = C15.e.
+Round 3: the constraint returned by and_/or_/not_ carries no state from call to
+call (no factory-scope iterator read, no factory-scope object mutated, no
+nonlocal).
 NOT decided: window arithmetic of the fixed-point test under non-idempotent
 members, convergence within maxiter.
 """
